@@ -941,6 +941,27 @@ Proof.
   intros O mz subj ctx caller t t' H. unfold cred_at, time_unix. now rewrite H.
 Qed.
 
+Lemma layout_v0 : forall schema sb exp upd rt version nonce root sl,
+  nth 4 (layout schema sb exp upd rt version nonce root sl) 0 =
+  nonce + 2 ^ 64 * match exp with Some e => e mod 2 ^ 64 | None => 0 end.
+Proof. intros. unfold layout. reflexivity. Qed.
+
+Lemma layout_i0 : forall schema sb exp upd rt version nonce root sl,
+  nth 0 (layout schema sb exp upd rt version nonce root sl) 0 =
+  schema + 2 ^ 128 * (subject_flag sb + 8 * exp_flag exp + 16 * b2z upd + 32 * merklized_flag rt)
+         + 2 ^ 160 * version.
+Proof. intros. unfold layout. reflexivity. Qed.
+
+Lemma expflag_of_i0 : forall s sj u m v,
+  0 <= s < 2 ^ 128 -> 0 <= sj < 8 -> 0 <= u < 2 -> 0 <= m < 3 -> 0 <= v ->
+  get_field (s + 2 ^ 128 * (sj + 8 * 1 + 16 * u + 32 * m) + 2 ^ 160 * v) 131 1 = 1.
+Proof.
+  intros s sj u m v Hs Hsj Hu Hm Hv.
+  replace (s + 2 ^ 128 * (sj + 8 * 1 + 16 * u + 32 * m) + 2 ^ 160 * v)
+    with ((s + 2 ^ 128 * sj) + 2 ^ 131 * (1 + 2 ^ 1 * (u + 2 * m + 2 ^ 28 * v))) by (pw; lia).
+  apply get_field_decomp; pw; lia.
+Qed.
+
 (* value slot 0 of every claim built from a credential expiring at instant t *)
 Theorem expiration_layout : forall O mz subj ctx caller t cl,
   0 <= o_nonce (eff_opts caller) < 2 ^ 64 -> 0 <= o_version (eff_opts caller) < 2 ^ 32 ->
@@ -952,20 +973,16 @@ Proof.
   destruct (tcc_prefix (cred_at mz subj (Some t) ctx)) as [[[[mz' ty] sl] nm]| | |] eqn:Hp;
     try (rewrite to_core_claim_unfold, Hp in Hok; discriminate).
   destruct (layout_ok O _ caller mz' ty sl nm cl Hn Hv Hp Hok) as (sb & rt & _ & _ & Hl).
-  unfold layout, ints in Hl. cbn [cred_at c_expiration time_unix exp_flag] in Hl.
-  injection Hl as H0 _ _ _ H4 _ _ _. split; [exact H4|].
-  rewrite H0.
+  assert (H4 : v0 cl = nth 4 (ints cl) 0) by reflexivity.
+  assert (H0 : i0 cl = nth 0 (ints cl) 0) by reflexivity.
+  rewrite Hl, layout_v0 in H4. rewrite Hl, layout_i0 in H0.
+  split; [exact H4|].
+  rewrite H0. change (exp_flag (c_expiration (cred_at mz subj (Some t) ctx))) with 1.
   pose proof (schema_hash_range O ty) as Hs.
-  assert (Hsb : 0 <= subject_flag sb < 8) by (destruct sb; cbn; lia).
-  assert (Hrt : 0 <= merklized_flag rt < 3) by (destruct rt; cbn; lia).
-  pose proof (b2z_range (o_updatable (eff_opts caller))) as Hu.
-  replace (schema_hash O ty +
-           2 ^ 128 * (subject_flag sb + 8 * 1 + 16 * b2z (o_updatable (eff_opts caller)) + 32 * merklized_flag rt) +
-           2 ^ 160 * o_version (eff_opts caller))
-    with ((schema_hash O ty + 2 ^ 128 * subject_flag sb) +
-          2 ^ 131 * (1 + 2 ^ 1 * (b2z (o_updatable (eff_opts caller)) + 2 * merklized_flag rt
-                                  + 2 ^ 28 * o_version (eff_opts caller)))) by (pw; lia).
-  apply get_field_decomp; pw; lia.
+  apply expflag_of_i0; try exact Hs; try lia.
+  - destruct sb; cbn; lia.
+  - apply b2z_range.
+  - destruct rt; cbn; lia.
 Qed.
 
 (* ================= the data slots ================= *)
